@@ -32,7 +32,9 @@ def prepare(sc: Scratch) -> dict:
     specs = parse_harness_specs(hsrc)
     for s in specs:
         s.qual = "request::path::deserializer::verif_harness::"
+    xg = prepare_extract_group(sc)
     return {
+        "extra_groups": [xg],
         "pkg_dir": sc.repo / "runtime" / "pavex",
         "target_dir": CACHE / "target-pavex",
         "specs": specs,
@@ -46,6 +48,103 @@ def prepare(sc: Scratch) -> dict:
                                   "values longer than the per-harness byte bound"],
         },
     }
+
+
+# ---------------------------------------------------------------------------------------------
+# second group: the PathParams::extract stage (percent-decoding), real request/path/*.rs against a
+# matchit shim (only the parameter list of a match), harness in /verif/harness/C15x
+# ---------------------------------------------------------------------------------------------
+XDIR = VERIF / "harness" / "C15x"
+PATH_REL = "runtime/pavex/src/request/path"
+
+
+def prepare_extract_group(sc: Scratch) -> dict:
+    import shutil
+    pkg = sc.root / "h_c15x"
+    if pkg.exists():
+        shutil.rmtree(pkg)
+    pkg.mkdir(parents=True)
+    hcopy = pkg / "c15x.rs"
+    shutil.copy(XDIR / "c15x.rs", hcopy)
+    root = pkg / "root.rs"
+    d = sc.repo / PATH_REL
+    root.write_text(
+        "#![allow(dead_code, unused_imports)]\n"
+        "// stand-in for pavex::Response (only named by the error -> response conversions of errors.rs)\n"
+        "pub struct Response(pub u16);\n"
+        "impl Response {\n"
+        "    pub fn bad_request() -> Self { Response(400) }\n"
+        "    pub fn internal_server_error() -> Self { Response(500) }\n"
+        "    pub fn set_typed_body<T>(self, _b: T) -> Self { self }\n"
+        "}\n"
+        "pub mod request {\n"
+        "    pub mod path {\n"
+        f'        #[path = "{d / "deserializer.rs"}"]\n        mod deserializer;\n'
+        f'        #[path = "{d / "errors.rs"}"]\n        pub mod errors;\n'
+        f'        #[path = "{d / "path_params.rs"}"]\n        mod path_params;\n'
+        f'        #[path = "{d / "raw_path_params.rs"}"]\n        mod raw_path_params;\n'
+        "        pub use path_params::PathParams;\n"
+        "        pub use raw_path_params::{EncodedParamValue, RawPathParams, RawPathParamsIter};\n"
+        f'        #[cfg(kani)]\n        #[path = "{hcopy}"]\n        mod verif_c15x;\n'
+        "    }\n"
+        "}\n")
+    toml = (XDIR / "Cargo.toml.in").read_text()
+    (pkg / "Cargo.toml").write_text(toml.replace("@ROOT@", str(root)).replace("@SHIMS@", str(VERIF / "shims")))
+    specs = parse_harness_specs((XDIR / "c15x.rs").read_text())
+    for s in specs:
+        s.qual = "request::path::verif_c15x::"
+    import shutil as _sh
+    _sh.copy(VERIF / "harness" / "nd.rs", pkg / "nd.rs")
+    return {"pkg_dir": pkg, "target_dir": CACHE / "target-c15x", "specs": specs, "kani_args": [], "confirm": confirm_extract}
+
+
+def _native_replay_extract(sc: Scratch, script_path: Path, log_path: Path) -> tuple[bool | None, str]:
+    """Append the replay module to the scratch copy of the real path_params.rs and run it as a unit test of
+    the real pavex crate (real matchit router, real percent-encoding). True = the real code misbehaves."""
+    import os
+    target = sc.repo / PATH_REL / "path_params.rs"
+    src = target.read_text()
+    if "mod verif_replay_c15x" not in src:
+        target.write_text(src + "\n" + (XDIR / "replay_native.rs").read_text())
+    env = env_offline()
+    env["VERIF_C15X_SCRIPT"] = str(script_path)
+    env["CARGO_TARGET_DIR"] = str(CACHE / "target-native-pavex")
+    p = subprocess.run(["cargo", "test", "--offline", "-p", "pavex", "--lib", "verif_replay_c15x", "--", "--nocapture", "--test-threads", "1"],
+                       cwd=sc.repo, env=env, stdout=subprocess.PIPE, stderr=subprocess.STDOUT, text=True)
+    log_path.parent.mkdir(parents=True, exist_ok=True)
+    log_path.write_text(p.stdout)
+    m = re.search(r"C15X-REPLAY (REPRODUCED|NOT-REPRODUCED|MALFORMED)(.*)$", p.stdout, re.M)
+    if not m:
+        return None, "the native replay did not run (see %s)" % log_path
+    return {"REPRODUCED": True, "NOT-REPRODUCED": False}.get(m.group(1)), m.group(0)
+
+
+def confirm_extract(sc: Scratch, g: dict, r: HarnessResult, log_dir: Path) -> dict:
+    import json, os
+    from .. import session
+    role = f"{r.spec.name}: " + "; ".join(sorted({c["description"] for c in r.failed}))
+    finds = session.native_search(g, r.spec.name, log_dir / f"{r.spec.name}.native-search.log", int(os.environ.get("VERIF_SEED", "0") or 0))
+    rep_dir = VERIF / "replays" / "generated" / PID
+    rep_dir.mkdir(parents=True, exist_ok=True)
+    first = None
+    for tr in finds:
+        recs = [l for l in tr if l.get("kind") == "c15x"]
+        if not recs:
+            continue
+        script = {"target": recs[0]["target"], "params": recs[0]["params"], "_origin": {"harness": r.spec.name, "failed": role}}
+        h = hashlib.sha256(json.dumps(script, sort_keys=True).encode()).hexdigest()[:12]
+        rep = rep_dir / f"{r.spec.name}-{h}.json"
+        rep.write_text(json.dumps(script, indent=1) + "\n")
+        first = first or rep
+        ok, detail = _native_replay_extract(sc, rep, log_dir / f"{r.spec.name}.native.log")
+        if ok is True:
+            return {"reproduced": True, "replay": str(rep), "role": role, "detail": detail}
+        if rep != first:
+            rep.unlink(missing_ok=True)
+    if first is not None:
+        return {"reproduced": False, "replay": str(first), "role": role,
+                "detail": f"{len(finds)} concrete failing inputs of the shim build do not misbehave on the real crate"}
+    return {"reproduced": None, "role": role, "detail": "native search found no failing input"}
 
 
 def _run_playback(pkg_dir: Path, test_filter: str, log_path: Path, release: bool = False) -> tuple[bool | None, str]:
@@ -101,6 +200,14 @@ def _apply_and_play(sc: Scratch, test: str, log_path: Path) -> tuple[bool | None
 
 
 def replay(path: Path) -> int:
+    if path.suffix == ".json":
+        with Scratch(PID + "-replay") as sc:
+            ok, detail = _native_replay_extract(sc, path, CACHE / "logs" / PID / "replay.native.log")
+        log(f"replay {path}: {detail}")
+        if ok is True:
+            print(f"VIOLATION property={PID} replay={path}", flush=True)
+            return 1
+        return 0 if ok is False else 2
     text = path.read_text()
     test = "\n".join(l for l in text.splitlines() if not l.startswith("// "))
     with Scratch(PID + "-replay") as sc:
